@@ -197,6 +197,11 @@ def handleNode (spec : Bool) (st : St) (id : String) (args : List String) (impl 
       let w := showWindow (windowFrom n.hdrs (GV.Gen.DMA_WINDOW + 1) k)
       (st, if spec then cmpSpec w impl else cmpModel w impl)
     | none => (st, .unknown)
+  -- the header hash the header MMR holds at every height up to `header_head` (`get_header_by_height`):
+  -- by the rules the ancestors of `header_head`, genesis first (theorem `hmmr_is_ancestor_chain`)
+  | ["hmmr"] =>
+    let m := "[" ++ ",".intercalate (n.hmmr.map toString) ++ "]"
+    (st, if spec then cmpSpec m impl else cmpModel m impl)
   | _ => (st, .unknown)
 
 /-- the real hash shapes of the header MMR: `(idx, header).hash()` with the header in hash mode
